@@ -2,15 +2,23 @@
 
 Correspondence: runpp(net, **explicit) with net.user_pf_options = stored on tiny nets, observed at
 net._options right after _init_runpp_options (the numerical pipeline `_powerflow` is replaced by a recorder in
-this process only) and at the return value of _passed_runpp_parameters, versus C34.Model.run_options.
+this process only) and at the return value / the exception of _passed_runpp_parameters, versus C34.Model.run_options.
 Enumeration: for every runpp option key, all (stored, explicit) value pairs incl. "absent" (exhaustive singles),
-plus random multi-key combinations on several net variants (ZIP loads, HV lines, two slacks, existing results).
+composite values (numpy arrays of size 0/1/2, pandas Series, lists, tuples, dicts) for the copied named arguments and the
+opaque **kwargs keys, plus random multi-key combinations on several net variants (ZIP loads, HV lines, two slacks,
+existing results).
+The run_control branch: runpp(run_control=True, ...) with step controllers on one or two levels, simulated diverging inner
+power flows, continue_on_divergence / check_each_level / max_iter; observed are the keyword arguments of every inner run
+(wrapper around run_control.runpp), net._options of every inner power flow and the outcome, versus
+C34.ModelCtl.run_control_case.
 Oracle (independent of the model): (O1) net._options equals the options of the same call with the explicitly
 passed keys removed from the stored options; (O2) plainly copied explicit options show up with the passed value;
-(O3) stored options of keys that were not passed are applied; the same on real (unstubbed) runpp calls."""
+(O3) stored options of keys that were not passed are applied; the same on real (unstubbed) runpp calls; (O4) every inner
+power flow of the run_control branch is configured like the plain call with the same power flow arguments."""
 import copy, json, math
 from fractions import Fraction
 import numpy as np
+import pandas as pd
 import pandapower as pp
 import pandapower.run as prun
 import pandapower.auxiliary as paux
@@ -18,13 +26,21 @@ from vf import coqrun as cq
 
 RULE = ("exhaustive (stored, explicit) value pairs incl. absent for each of 31 runpp option keys on a 2-bus net, plus random "
         "multi-key combinations (1-4 stored, 1-4 explicit keys, 60% forced overlap) on 4 net variants with/without previous "
-        "results; non-trivial = stored and explicit are both non-empty and share at least one key")
+        "results; composite values (arrays of size 0/1/2, Series, list, tuple, dict) for 7 copied named arguments and 5 opaque "
+        "**kwargs keys against absent/scalar/composite stored values; run_control branch: 1-2 controller levels with 0-3 control "
+        "steps, diverging inner runs, continue_on_divergence/check_each_level/max_iter, 25% outside the guard Gctl; "
+        "non-trivial = stored and explicit are both non-empty and share at least one key")
 ASSUMPTIONS = ["net._options is observed directly after _init_runpp_options (numerical pipeline replaced by a recorder in the "
                "harness process); a sample of real runpp calls checks that the pipeline does not rewrite the compared keys",
                "facts about net/installation (numba, lightsim2grid, ZIP loads, HV lines, slack count, mean vm_pu) are computed by "
                "the harness and passed to the model as inputs",
-               "python == on {bool,int,float,str,None} as modelled by C34.Model.val_eqb"]
-TRUSTED = ["monkeypatch of pandapower.run._powerflow / _passed_runpp_parameters (recorders) in the harness process"]
+               "python == on {bool,int,float,str,None} as modelled by C34.Model.val_eqb; bool(value != default) for list/tuple/dict/"
+               "numpy array/pandas Series values as modelled by C34.Model.ne_truth (numpy >= 2.2: empty array raises)",
+               "composite values are used only for options that the option code copies without looking at them",
+               "run_control branch: ctrl_variables and run are not passed by the caller; controllers do not change the facts read "
+               "by the option code; the controllers' convergence and the inner power flows' convergence are inputs of the model"]
+TRUSTED = ["monkeypatch of pandapower.run._powerflow / _passed_runpp_parameters / pandapower.control.run_control.runpp (recorders) "
+           "in the harness process"]
 KIND = "C34-explicit-default-ignored"
 
 NAMED_DEFAULTS = {"algorithm": "nr", "calculate_voltage_angles": True, "init": "auto", "max_iteration": "auto",
@@ -178,6 +194,16 @@ def val_lit(v):
         return "(VQ %s)" % cq.q(float(v))
     if isinstance(v, str):
         return "(VS %s)" % INT.name(v)
+    if isinstance(v, np.ndarray):
+        return "(VA %s)" % cq.lst([val_lit(x) for x in v.ravel().tolist()])
+    if isinstance(v, pd.Series):
+        return "(VSer %s)" % cq.lst([val_lit(x) for x in v.tolist()])
+    if isinstance(v, (list, tuple)):
+        return "(VL %s)" % cq.lst([val_lit(x) for x in v])
+    if isinstance(v, dict):
+        return "(VD %s)" % dict_lit(v)
+    if callable(v):
+        return "(VO 0)"
     raise ValueError("no literal for %r" % (v,))
 
 
@@ -209,6 +235,25 @@ def canon_val(v):
         return ["q", "%d/%d" % (fr.numerator, fr.denominator)]
     if isinstance(v, str):
         return ["s", v]
+    # composite values: impl objects and the model's tagged lists ["array", [...]] map to the same form
+    if isinstance(v, np.ndarray):
+        return ["array", [canon_val(x) for x in v.ravel().tolist()]]
+    if isinstance(v, pd.Series):
+        return ["series", [canon_val(x) for x in v.tolist()]]
+    if isinstance(v, tuple):
+        return ["list", [canon_val(x) for x in v]]
+    if isinstance(v, dict):
+        return ["dict", sorted([[k, canon_val(x)] for k, x in v.items()])]
+    if isinstance(v, list):
+        if len(v) == 2 and v[0] in ("array", "series", "list") and isinstance(v[1], list):
+            return [v[0], [canon_val(x) for x in v[1]]]
+        if len(v) == 2 and v[0] == "dict" and isinstance(v[1], list):
+            return ["dict", sorted([[kv[0], canon_val(kv[1])] for kv in v[1]])]
+        if len(v) == 2 and v[0] == "object":
+            return ["object"]
+        return ["list", [canon_val(x) for x in v]]
+    if callable(v):
+        return ["object"]
     return ["other", repr(v)]
 
 
@@ -241,7 +286,11 @@ class Recorder:
             rec.opts = copy.deepcopy(dict(net._options))
 
         def passed(loc):
-            r = rec._pp(loc)
+            try:
+                r = rec._pp(loc)
+            except Exception as e:
+                rec.passed = "raised " + type(e).__name__
+                raise
             rec.passed = copy.deepcopy(r)
             return r
 
@@ -268,7 +317,9 @@ def impl_options(base_net, stored, explicit, stub=True):
                 out = canon_dict(rec.opts)
             except Exception as e:
                 out = ["err", type(e).__name__]
-            passed = None if rec.passed in (None, "unset") else canon_dict(rec.passed)
+            passed = None if (rec.passed is None or isinstance(rec.passed, str)) else canon_dict(rec.passed)
+            if rec.passed == "raised ValueError":
+                passed = ["err", "ValueError"]
         return out, passed
     import io, contextlib
     try:
@@ -279,6 +330,25 @@ def impl_options(base_net, stored, explicit, stub=True):
         return ["err", type(e).__name__], None
 
 
+def dec(x):
+    """JSON form of a case value -> python value ({"__array__": [...]}, {"__series__": [...]}, {"__tuple__": [...]},
+    {"__dict__": {...}}; everything else as it is)"""
+    if isinstance(x, dict):
+        if set(x) == {"__array__"}:
+            return np.array(x["__array__"])
+        if set(x) == {"__series__"}:
+            return pd.Series(x["__series__"])
+        if set(x) == {"__tuple__"}:
+            return tuple(x["__tuple__"])
+        if set(x) == {"__dict__"}:
+            return {k: dec(v) for k, v in x["__dict__"].items()}
+    return x
+
+
+def dec_dict(d):
+    return {k: dec(v) for k, v in d.items()}
+
+
 def py_eq(a, b):
     try:
         return bool(a == b)
@@ -286,13 +356,35 @@ def py_eq(a, b):
         return False
 
 
+def ne_true(v, d):
+    """bool(v != d) as the code evaluates it; False when it raises (C34.Model.ne_true)"""
+    try:
+        return bool(v != d)
+    except Exception:
+        return False
+
+
+def ne_raises(v, d):
+    try:
+        bool(v != d)
+        return False
+    except Exception:
+        return True
+
+
+def compare_raises(explicit):
+    """some named argument cannot be compared to its default (array of size != 1, Series): outside the property's domain"""
+    return any(ne_raises(v, NAMED_DEFAULTS[k]) for k, v in explicit.items() if k in NAMED_DEFAULTS)
+
+
 def defaulted_keys(stored, explicit):
     """explicit named keys whose value == the signature default and which collide with a stored option (not G34_key)"""
-    return [k for k, v in explicit.items() if k in NAMED_DEFAULTS and py_eq(v, NAMED_DEFAULTS[k]) and k in stored]
+    return [k for k, v in explicit.items() if k in NAMED_DEFAULTS and not ne_true(v, NAMED_DEFAULTS[k])
+            and not ne_raises(v, NAMED_DEFAULTS[k]) and k in stored]
 
 
 def g34(explicit):
-    return all(not py_eq(v, NAMED_DEFAULTS[k]) for k, v in explicit.items() if k in NAMED_DEFAULTS)
+    return all(ne_true(v, NAMED_DEFAULTS[k]) for k, v in explicit.items() if k in NAMED_DEFAULTS)
 
 
 def lookup(opts, k):
@@ -304,10 +396,15 @@ def lookup(opts, k):
 
 def oracle(ctx, base_net, case, stub=True):
     """spec on the impl, independent of the model.  returns the impl observation of the case."""
-    stored, explicit = case["stored"], case["explicit"]
+    stored, explicit = dec_dict(case["stored"]), dec_dict(case["explicit"])
     o, passed = impl_options(base_net, stored, explicit, stub)
+    if compare_raises(explicit):
+        # an argument that cannot be compared to its default: correspondence only (the model says ValueError iff options
+        # are stored), the property speaks about arguments with a comparable value
+        ctx.count("compare_raises")
+        return o, passed
     reduced = {k: v for k, v in stored.items() if k not in explicit}
-    o_ref = o if reduced == stored else impl_options(base_net, reduced, explicit, stub)[0]
+    o_ref = o if set(reduced) == set(stored) else impl_options(base_net, reduced, explicit, stub)[0]
     D = defaulted_keys(stored, explicit)
     tag = "" if stub else " (real runpp)"
     if o != o_ref:
@@ -353,6 +450,44 @@ def single_cases():
     return out
 
 
+# composite values: for the named arguments that the option code only copies, and for **kwargs keys it treats as opaque
+COMPOSITE_NAMED = ["tolerance_mva", "trafo_model", "trafo_loading", "enforce_q_lims", "check_connectivity",
+                   "consider_line_temperature", "tdpf_delay_s"]
+COMPOSITE_KWARGS = ["recycle", "init_vm_pu", "init_va_degree", "permc_spec", "foo_option"]
+
+
+def composite_values(k):
+    d = NAMED_DEFAULTS.get(k, None)
+    other = GRID[k][1] if k in GRID and len(GRID[k]) > 1 else 7
+    vals = [{"__array__": [d, d]} if d is not None else {"__array__": [1.0, 2.0]},
+            {"__array__": [d]} if d is not None else {"__array__": [60]},
+            {"__array__": [other]} if other is not None else {"__array__": [5]},
+            {"__array__": []},
+            {"__series__": [d]} if d is not None else {"__series__": [1.0]},
+            [d], [], {"__tuple__": [other]},
+            {"__dict__": {"bus_pq": True, "trafo": False, "gen": False}}, {"__dict__": {}}]
+    return vals
+
+
+def composite_cases():
+    out = []
+    for k in COMPOSITE_NAMED + COMPOSITE_KWARGS:
+        scal = GRID[k][1] if k in GRID and len(GRID[k]) > 1 else 3
+        for ev in composite_values(k):
+            if k in ("init_vm_pu", "init_va_degree") and isinstance(ev, dict) and "__dict__" in ev:
+                continue
+            for stored in ({}, {k: scal}, {"max_iteration": 25}, {k: {"__dict__": {"bus_pq": False}}} if k == "recycle" else {k: scal, "numba": False}):
+                out.append({"net": "plain", "prerun": False, "stored": stored, "explicit": {k: ev}})
+    # composite stored values against scalar / absent explicit ones
+    for k in COMPOSITE_KWARGS:
+        for sv in ({"__array__": [1.0, 1.0]}, {"__dict__": {"bus_pq": True}}, [1.0, 1.0]):
+            if k in ("init_vm_pu", "init_va_degree") and isinstance(sv, dict) and "__dict__" in sv:
+                continue
+            for explicit in ({}, {k: None}, {"algorithm": "nr"}, {"tolerance_mva": 1e-6}):
+                out.append({"net": "plain", "prerun": False, "stored": {k: sv}, "explicit": explicit})
+    return out
+
+
 def random_case(rng, grid=GRID, variants=VARIANTS):
     keys = [k for k in grid if k != "mode"]
     ns, ne = rng.randint(1, 4), rng.randint(1, 4)
@@ -390,7 +525,7 @@ def base_net(case):
 
 
 def term_of(case, f):
-    return "intern tbl_ (run_options %s %s %s)" % (facts_lit(f), dict_lit(case["stored"]), dict_lit(case["explicit"]))
+    return "intern tbl_ (run_options %s %s %s)" % (facts_lit(f), dict_lit(dec_dict(case["stored"])), dict_lit(dec_dict(case["explicit"])))
 
 
 def check_cases(ctx, cases, label):
@@ -400,7 +535,7 @@ def check_cases(ctx, cases, label):
         f = facts_of(net)
         o, passed = oracle(ctx, net, case, stub=True)
         terms.append(term_of(case, f))
-        obs.append((o, passed, g34(case["explicit"])))
+        obs.append((o, passed, g34(dec_dict(case["explicit"]))))
         shared = set(case["stored"]) & set(case["explicit"])
         ctx.case(case, nontrivial=bool(shared),
                  sample={"input": case, "facts": f, "impl_options": o, "impl_passed": passed} if (label == "single" and i in (40, 300)) else None)
@@ -409,9 +544,10 @@ def check_cases(ctx, cases, label):
         ctx.count("g34_" + str(obs[-1][2]))
         if shared:
             ctx.count("shared_keys_%d" % min(len(shared), 3))
-        if defaulted_keys(case["stored"], case["explicit"]):
+        if defaulted_keys(dec_dict(case["stored"]), dec_dict(case["explicit"])):
             ctx.count("explicit_default_collides_with_stored")
-    for k in list(GRID) + ["mode", "ac", "delta", "init_results", "p_lim_default", "q_lim_default", "pf", "hv", "flat", "dc"]:
+    for k in list(GRID) + ["mode", "ac", "delta", "init_results", "p_lim_default", "q_lim_default", "pf", "hv", "flat", "dc",
+                           "array", "series", "list", "dict", "object", "ValueError"]:
         INT.name(k)
     model = ctx.coq_eval("c34_" + label, "Base.QN C34.Model", terms, prelude=INT.prelude(), shard=120, timeout=900)
     for case, (o, passed, g), m in zip(cases, obs, model):
@@ -448,10 +584,14 @@ CTRL_GRID["trafo3w_losses"] = ["hv", "star"]
 
 
 def controlled_cases(ctx, rng, n):
-    """runpp(net, run_control=True, continue_on_divergence=..., **explicit) with a controller in the net: EVERY power flow
+    """runpp(net, run_control=True, continue_on_divergence=..., **explicit) with controllers in the net: EVERY power flow
     that is run inside (initial run, one per control iteration, the retry after repair_control) must be configured exactly
-    like the plain call runpp(net, **explicit) - explicit arguments must not get lost on any of these paths.
+    like the plain call runpp(net, **explicit) - explicit arguments must not get lost on any of these paths (oracle), and
+    the sequence of inner power flows, their keyword arguments, their net._options and the outcome must be the ones of
+    C34.ModelCtl.run_control_case (correspondence).
     The numerical pipeline is replaced by a recorder that can simulate a diverging power flow."""
+    import sys, pandapower.control
+    prc = sys.modules["pandapower.control.run_control"]
     from pandapower.control.basic_controller import Controller
     from pandapower.auxiliary import LoadflowNotConverged
 
@@ -469,51 +609,124 @@ def controlled_cases(ctx, rng, n):
         def repair_control(self, net):
             self.repairs += 1
 
+    terms, obs = [], []
     for _ in range(n):
         case = random_case(rng, CTRL_GRID, ["plain", "zip", "gen"])
         case["prerun"] = False
         explicit = {k: v for k, v in case["explicit"].items() if k != "run_control"}
         stored = case["stored"]
+        # the arguments addressed to run_control itself travel in runpp's **kwargs
+        ctl = {}
+        if rng.random() < 0.75:
+            ctl["continue_on_divergence"] = rng.random() < 0.8
+        if rng.random() < 0.3:
+            ctl["check_each_level"] = rng.random() < 0.5
+        if rng.random() < 0.35:
+            ctl["max_iter"] = rng.choice([0, 1, 2])
+        # outside the guard Gctl (correspondence only): options that run_control overwrites, stored options under its keys
+        outside = rng.random() < 0.25
+        if outside:
+            pick = rng.choice(["only_v_results", "recycle", "stored_only_v_results", "stored_recycle", "stored_cod"])
+            if pick == "only_v_results":
+                explicit["only_v_results"] = True
+            elif pick == "recycle":
+                explicit["recycle"] = False
+            elif pick == "stored_only_v_results":
+                stored = dict(stored, only_v_results=True)
+            elif pick == "stored_recycle":
+                stored = dict(stored, recycle=False)
+            else:
+                stored = dict(stored, continue_on_divergence=True)
         base = base_net(case)
         plain, _ = impl_options(base, stored, explicit, stub=True)
-        if plain[0:1] == ["err"]:
-            continue
-        fail = rng.choice([[], [2], [1], [2, 3], [3]])
-        cod = rng.random() < 0.75
+        fail = rng.choice([[], [2], [1], [2, 3], [3], [2, 4]])
+        steps = [rng.randint(0, 3)] + ([rng.randint(0, 2)] if rng.random() < 0.35 else [])
+        initial_run = rng.random() < 0.8
         net = copy.deepcopy(base)
-        StepCtrl(net, steps=rng.randint(1, 2))
+        for lvl, st in enumerate(steps):
+            StepCtrl(net, steps=st, level=lvl, initial_run=initial_run)
         net.user_pf_options = {}
         if stored:
             pp.set_user_pf_options(net, **stored)
-        inner = []
-        orig = prun._powerflow
+        f = facts_of(net)
+        inner, inner_kwargs = [], []
+        orig, orig_run = prun._powerflow, prc.runpp
 
         def pf(n_, **kw):
-            inner.append(canon_dict(copy.deepcopy(dict(n_._options))))
+            inner[-1] = canon_dict(copy.deepcopy(dict(n_._options)))
+            n_["converged"] = False                      # powerflow.py:38
             if len(inner) in fail:
                 raise LoadflowNotConverged("simulated divergence of inner power flow %d" % len(inner))
             n_["converged"] = True
+
+        def run_wrapper(n_, **kw):
+            inner_kwargs.append(canon_dict(kw))
+            inner.append(None)
+            try:
+                return orig_run(n_, **kw)
+            except Exception as e:
+                if inner[-1] is None:
+                    inner[-1] = ["err", type(e).__name__]   # raised by the option code, before the calculation
+                raise
         prun._powerflow = pf
+        prc.runpp = run_wrapper
         outcome = "ok"
         try:
             try:
-                pp.runpp(net, run_control=True, continue_on_divergence=cod, **explicit)
+                pp.runpp(net, run_control=True, **ctl, **explicit)
             except Exception as e:
                 outcome = type(e).__name__
         finally:
             prun._powerflow = orig
-        desc = {"controlled": True, "stored": stored, "explicit": explicit, "diverging_runs": fail, "continue_on_divergence": cod}
-        for j, o in enumerate(inner):
-            if o != plain:
-                ctx.violation("spec", "power flow #%d inside runpp(run_control=True%s) is not configured like the plain call with the "
-                              "same explicit arguments: %s" % (j + 1, ", continue_on_divergence=True" if cod else "", _diff(o, plain)), desc)
-                break
+            prc.runpp = orig_run
+        full_explicit = dict(explicit, run_control=True, **ctl)
+        desc = {"controlled": True, "net": case["net"], "stored": stored, "explicit": full_explicit, "diverging_runs": fail,
+                "steps": steps, "initial_run": initial_run}
+        gctl = not (set(stored) & {"kwargs", "continue_on_divergence", "check_each_level", "max_iter", "ctrl_variables", "run",
+                                   "recycle", "only_v_results"}) and \
+            not (set(full_explicit) & {"kwargs", "ctrl_variables", "run", "recycle", "only_v_results"})
+        if gctl:
+            for j, o in enumerate(inner):
+                if o != plain:
+                    ctx.violation("spec", "power flow #%d inside runpp(run_control=True, %r) is not configured like the plain call "
+                                  "with the same explicit arguments: %s" % (j + 1, ctl, _diff(o, plain)), desc)
+                    break
+        else:
+            ctx.count("controlled_outside_guard")
         ctx.case(desc, nontrivial=bool(set(stored) & set(explicit)) and len(inner) >= 2)
         ctx.count("controlled_runs")
         ctx.count("controlled_inner_power_flows", len(inner))
         ctx.count("controlled_outcome_" + outcome)
-        if cod and any(f <= len(inner) for f in fail):
+        ctx.count("controlled_levels_%d" % len(steps))
+        cod = bool(ctl.get("continue_on_divergence", False))
+        if cod and any(fl <= len(inner) for fl in fail):
             ctx.count("controlled_with_repair_retry")
+        terms.append("intern tbl_ (run_control_case %s %s %s %s %s %s)" % (
+            facts_lit(f), cq.lst([cq.nat(x - 1) for x in fail]), cq.lst([cq.nat(x) for x in steps]), cq.b(initial_run),
+            dict_lit(stored), dict_lit(full_explicit)))
+        obs.append((desc, inner, outcome, inner_kwargs, plain, gctl))
+    for k in ["ok", "LoadflowNotConverged", "ControllerNotConverged", "NetCalculationNotConverged", "kwargs", "run_control",
+              "continue_on_divergence", "check_each_level", "max_iter", "NotImplementedError", "KeyError", "ValueError",
+              "UserWarning", "only_v_results", "recycle", "dict", "array", "list", "series", "object"] + list(GRID) + \
+            ["mode", "ac", "delta", "init_results", "p_lim_default", "q_lim_default", "pf", "hv", "flat", "dc"]:
+        INT.name(k)
+    model = ctx.coq_eval("c34_control", "Base.QN C34.Model C34.ModelCtl", terms, prelude=INT.prelude(), shard=60, timeout=900)
+    for (desc, inner, outcome, inner_kwargs, plain, gctl), m in zip(obs, model):
+        ctx.corr_checked += 1
+        m = INT.decode(m)
+        m_trace = [canon_model_dict(x) for x in m[0]]
+        m_inner_kw = canon_model_dict(m[2])
+        if m_trace != inner:
+            ctx.disagreement("inner power flows of the run_control branch: impl %d runs / model %d runs; first difference %s" % (
+                len(inner), len(m_trace), next((_diff(a, b) for a, b in zip(inner, m_trace) if a != b), "length")), desc)
+        elif m[1] != outcome:
+            ctx.disagreement("outcome of runpp(run_control=True): impl %s / model %s" % (outcome, m[1]), desc)
+        elif any(kw != m_inner_kw for kw in inner_kwargs):
+            ctx.disagreement("keyword arguments of an inner run: impl %r / model %r" % (inner_kwargs[0], m_inner_kw), desc)
+        elif canon_model_dict(m[3]) != plain:
+            ctx.disagreement("plain call of the controlled case: %s" % _diff(plain, canon_model_dict(m[3])), desc)
+        elif m[4] != gctl:
+            ctx.disagreement("guard Gctl: harness %r / model %r" % (gctl, m[4]), desc)
 
 
 def corpus_cases():
@@ -530,6 +743,9 @@ def run(ctx):
     if cor:
         check_cases(ctx, cor, "corpus")
     check_cases(ctx, single_cases(), "single")
+    comp = composite_cases()
+    stride = ctx.n(2, 1)                                  # quick tier: every second composite case (offset drawn)
+    check_cases(ctx, comp[rng.randrange(stride)::stride], "composite")
     check_cases(ctx, [random_case(rng) for _ in range(ctx.n(150, 3000))], "multi")
     real_cases(ctx, rng, ctx.n(16, 500))
     controlled_cases(ctx, rng, ctx.n(40, 800))
